@@ -533,6 +533,9 @@ func (C19) Judge(c *Ctx, sc *Scenario) []Violation {
 		if strings.Contains(expr, "di") || strings.Contains(expr, "fi") || strings.Contains(expr, "file") {
 			return vs
 		}
+		if evalAll {
+			return vs // eval-all evaluates the expression once over all documents: per-document runs are no reference
+		}
 		var want []byte
 		for _, d := range lay {
 			solo := d.Piece
